@@ -309,13 +309,25 @@ def table_u(facts, rep, w, rule="R09.1", only=None):
                    "layer the call fails with not-found although the overlay shows the file" % op, s.line)
         # the setter's answer is the answer of that call: no Ok that was decided otherwise ("only in a lower layer: nothing to do")
         bad_ok = []
-        for ct, _, rbb in ov.inter.ret_cases(b):
+        for ct, cgs, rbb in ov.inter.ret_cases(b):
             if ov.inter.case_polarity(ct) == "err":
                 continue
             t_ = passthrough_of(norm(ct))
             while t_[0] == "await":
                 t_ = t_[1]
-            if not (t_[0] == "call" and isinstance(t_[1], str) and sname(t_[1]) == op):
+            if t_[0] == "call" and isinstance(t_[1], str) and sname(t_[1]) == op:
+                continue
+            # `layer.set_x(time)?; Ok(())`: the unit answer is given only where the layer's call answered Ok
+            unit_after = False
+            if norm(ct) == ("agg", "std::result::Result", "Ok", (("0", ("tuple", ())),)):
+                for g in cgs or ():
+                    if g[0] == "variant" and g[2] == "ok":
+                        x_ = norm(g[1])
+                        while x_[0] == "await":
+                            x_ = x_[1]
+                        if x_[0] == "call" and isinstance(x_[1], str) and sname(x_[1]) == op:
+                            unit_after = True
+            if not unit_after:
                 bad_ok.append(fmt(norm(ct))[:70])
         n += 1
         rep.ob(rule, b.id, "%s: answers with the write layer's %s result" % (op, op), not bad_ok, "" if not bad_ok else
@@ -460,6 +472,17 @@ def resolver_rules(facts, rep, w, rule="R09.3"):
                             # deeper in the tree is an ordinary name)
                             missed = any(g[0] == "bool" and g[2] is False and peel(g[1])[0] == "call" and sname(peel(g[1])[1]) == "exists" and
                                          peel(g[1])[2] and ov.origin_class(peel(g[1])[2][0]) & {"upper", "anylayer"} for g in gs)
+                            # ... and "no layer has it" is known once every layer was asked: a refusal built while the iteration
+                            # over the layers still has an element in hand ends the search at a layer that merely lacks the path
+                            # (or holds something else nearby) — layers below it that the merged listing shows are never consulted
+                            in_iter = any(g[0] == "variant" and g[3] == "Some" and peel(g[1])[0] == "call" and
+                                          isinstance(peel(g[1])[1], str) and short(peel(g[1])[1]) in ("Iterator::next", "DoubleEndedIterator::next_back")
+                                          for g in gs)
+                            n += 1
+                            rep.ob(rule, b.id, "resolver: not-found only after every layer was asked", not in_iter, "" if not in_iter else
+                                   "the resolver answers %s from inside its loop over the layers: the lookup ends at the first layer that "
+                                   "meets the condition, and entries that lower layers hold (and read_dir lists) do not exist"
+                                   % st.rv.agg["variant"], st.line)
                             n += 1
                             rep.ob(rule, b.id, "resolver: not-found only where the marker or the layers say so", missed, "" if missed else
                                    "the resolver answers %s on a path where neither the deletion marker nor a failed layer lookup is known: "
@@ -525,6 +548,20 @@ def listing_rules(facts, rep, w, rule="R09.4"):
             layer_reads.append((cb, s, tr, recv))
     n += 1
     rep.ob(rule, b.id, "listing accumulated in a set", len(inserts) >= 1, "%d set insert site(s)" % len(inserts), b.span)
+    # the marker subtraction is the last thing that happens to the listing: a name added to a set after it (entries of the write layer
+    # "that are live anyway", merged in afterwards) is never compared with the markers, so a removed entry the write layer still — or
+    # again — holds is listed
+    late_adds = []
+    for cb, s, tr in ov.sites(b):
+        if s.short in ("HashSet::insert", "BTreeSet::insert") or \
+                (s.short in ("Extend::extend", "HashSet::extend", "BTreeSet::extend") and "Set<" in (s.self_ty or "")):
+            for cb2, s2, tr2 in removes:
+                if cb2 is cb and tr.cfg.strictly_reaches(s2.bb, s.bb) and not tr.cfg.reaches(s.bb, s2.bb):
+                    late_adds.append(s.line)
+    n += 1
+    rep.ob(rule, b.id, "nothing is added to the listing after the marker subtraction", not late_adds, "" if not late_adds else
+           "names are added to the result after the deletion markers were subtracted: they are listed whether or not a marker hides them",
+           late_adds[0] if late_adds else b.span)
     for cb, s, tr in inserts:
         v = norm(tr.operand(s.args[1]))
         okf = v[0] == "call" and sname(v[1]) == "filename"
@@ -911,6 +948,14 @@ def run(facts, rep, tier, ctx):
             if o["rule"] in ("R20.1", "R20.4") and (o["fn"].startswith("<" + w10.overlay) or o["fn"].startswith(w10.overlay + "::")):
                 rep.ob(("A/" if w10.asyncw else "") + "R09.10", o["fn"], o["key"].split("|")[2], o["ok"], o["detail"], o["loc"])
         _c04o.overlay_read_delegation(facts, rep if not w10.asyncw else c10._Prefixed(rep, "A"), w10, "R09.10o")
+    # R09.11 the overlay's content operations do nothing optional on the way: a time setter called from append_file's copy-up ("carry the
+    # time stamps over") answers NotSupported on write layers that keep the trait default and fails the append (C19 R19.4w)
+    from . import c19 as _c19s
+    scr19 = _Rp9("s")
+    _c19s.run(facts, scr19, "quick", ctx)
+    for o in scr19.obligations:
+        if o["rule"] in ("R19.4w", "A/R19.4w") and "overlay" in o["fn"]:
+            rep.ob(o["rule"].replace("R19.4w", "R09.11/R19.4w"), o["fn"], o["key"].split("|")[2], o["ok"], o["detail"], o["loc"])
     # (the copy-up of append_file is the path type's copy_file: its generic route copies the whole stream — io::copy to EOF, not a
     # hand-written loop that stops at the first short read)
     from ..pathrules import PathRules as _PR9g
